@@ -79,7 +79,7 @@ var trieThreshDirs = []string{"pkg/trie/inmemory", "pkg/trie/node", "pkg/trie/in
 
 func init() {
 	register("C06", "threshold agreement between the two trie engines and the specification (R-THRESH) + header variant tables (R-VARIANT)",
-		"Decides that the database-backed engine hashes exactly the values the specification and the in-memory engine hash (len > MaxInlineValue, V1: 33 bytes and more), inlines exactly the child references shorter than 32 bytes, and uses the specification's node-header variant table with an exhaustive decoder. These are necessary for both engines to compute the spec root for every map. "+
+		"Decides that the database-backed engine looks a key up only through exact partial-key matches and prefix-guarded descents, that an insert which matched an existing node always installs the newly computed value, and that it hashes exactly the values the specification and the in-memory engine hash (len > MaxInlineValue, V1: 33 bytes and more), inlines exactly the child references shorter than 32 bytes, and uses the specification's node-header variant table with an exhaustive decoder. These are necessary for both engines to compute the spec root for every map. "+
 			"Not decided: the insert/remove/commit algorithms of triedb, lookups after commit.",
 		"constants are read from the SSA; MaxInlineValue is abstractly evaluated per version", "DESIGN.md §3 R-THRESH, R-VARIANT; §4 C06",
 		func(c *Ctx) {
@@ -88,6 +88,9 @@ func init() {
 			c.min("R-THRESH", 14)
 			c.ruleVariant("pkg/trie/triedb/codec")
 			c.min("R-VARIANT/table", 7)
+			c.ruleTriedb()
+			c.min("R-KEYMATCH/triedb", 3)
+			c.min("R-NEWVALUE", 3)
 		})
 }
 
